@@ -407,7 +407,7 @@ def getErr (key : String) (f : Option Fn) : List MapW → List Nat → Option Er
           | some e => some e
           | none =>
             match f with
-            | some f => if evalOk f allSel [key] 0 s.srows then none else some .type
+            | some f => if !s.voidcols.contains key && evalOk f allSel [key] 0 s.srows then none else some .type
             | none => none
   | _, _ => none
 
